@@ -2,11 +2,13 @@
 from __future__ import annotations
 
 import itertools
+import os
+import random
 
 from .. import core
 from ..core import Prop, Violation
 from ._coord import (CoordMixin, gen_cfg, gen_exec, gen_multi_kill, gen_ended_in_callback, gen_two_systems, gen_nest,
-                     gen_cnest, cnest_table, gen_tracked, request_kind_table, CP_SCRIPTS, DAY, HOUR, pint, gen_prio)
+                     gen_cnest, cnest_table, gen_tracked, request_kind_table, CP_SCRIPTS, DAY, HOUR, pint, gen_prio, gen_long_history)
 
 
 
@@ -98,6 +100,11 @@ class C14(CoordMixin, Prop):
             yield gen_cnest(rng)
         for i in range(max(15, n // 60)):
             yield gen_tracked(rng)
+        # long histories: drawn from a generator of their own (derived from the seed) so that the streams before and after
+        # them are what they were
+        lrng = random.Random(f"long-{os.environ.get('VERIF_SEED', '0')}-{tier}")
+        for i in range(2 if tier == "quick" else 10):
+            yield gen_long_history(lrng, 40 if tier == "quick" else lrng.choice([40, 80, 150]))
         # timeout boundaries: below / at / above each limit
         for i in range(max(6, n // 100)):
             L = rng.choice([1, 5, 10, DAY, DAY + HOUR])       # also limits of a day and more (timedelta.seconds is only the remainder)
